@@ -13,7 +13,7 @@ from harness.drivers import paired_driver as D
 
 ID = "C23"
 PROP_FILE = "Props/C23.v"
-THEOREMS = ["C23_stage_wrapper_trace", "C23_stage_wrapper_unstages_all", "C23_stage_wrapper_unstages_all_and_waits", "C23_stage_roots", "C23_suspend_wrapper_trace", "C23_suspend_wrapper_removes_all", "C23_subs_wrapper_trace", "C23_subs_wrapper_unsubscribes_tokens", "C23_run_wrapper_trace", "C23_run_wrapper_one_close", "C23_close_status_table", "C23_lazily_stage_trace", "C23_lazily_stage_unstages_all", "C23_lazily_stage_roots_once", "C23_during_is_expansion", "C23_expansion_before", "C23_expansion_after", "C23_during_lists"]
+THEOREMS = ["C23_stage_wrapper_trace", "C23_stage_wrapper_unstages_all", "C23_stage_wrapper_unstages_all_and_waits", "C23_stage_roots", "C23_suspend_wrapper_trace", "C23_suspend_wrapper_removes_all", "C23_subs_wrapper_trace", "C23_subs_wrapper_unsubscribes_tokens", "C23_run_wrapper_trace", "C23_run_wrapper_one_close", "C23_close_status_table", "C23_stage_wrapper_closed_in_plan", "C23_suspend_wrapper_closed_in_plan", "C23_subs_wrapper_closed_in_plan", "C23_run_wrapper_closed_in_plan", "C23_close_never_yields", "C23_lazily_stage_trace", "C23_lazily_stage_unstages_all", "C23_lazily_stage_roots_once", "C23_during_is_expansion", "C23_expansion_before", "C23_expansion_after", "C23_during_lists", "C23_during_is_expansion_full", "C23_expansion_throw", "C23_expansion_close"]
 COQ_IMPORTS = ("From BV Require Import Gen.Coalg Gen.PyGen Gen.Wrappers Gen.Tie Gen.Paired Gen.Insert Gen.Relative "
                "Gen.TiePaired Gen.TieRelative.")
 PARALLEL = True
